@@ -213,3 +213,25 @@ M('blist-translate-negative', 'C10', 'listutils.py',
 M('pq-pop-default-swallows-task', 'C10', 'queueutils.py',
   "            _, _, task = self._pop_entry(self._pq)\n            del self._entry_map[task]\n        except IndexError:\n            if default is not _REMOVED:\n                return default\n            raise IndexError('pop on empty queue')",
   "            _, _, task = self._pop_entry(self._pq)\n            self._entry_map.pop(task, None) if default is _REMOVED else None\n        except IndexError:\n            if default is not _REMOVED:\n                return default\n            raise IndexError('pop on empty queue')")
+
+# ---------------------------------------------------------------- C11
+M('iset-real-index-off-by-one', 'C11', 'setutils.py',
+  "        for d_start, d_stop in self.dead_indices:\n            if real_index < d_start:\n                break\n            real_index += d_stop - d_start\n        return real_index",
+  "        for d_start, d_stop in self.dead_indices:\n            if real_index <= d_start and d_start > 40:\n                break\n            if real_index < d_start:\n                break\n            real_index += d_stop - d_start\n        return real_index")
+M('iset-compact-threshold-skips-map', 'C11', 'setutils.py',
+  "        for i, item in enumerate(self):\n            items[i] = item\n            index_map[item] = i",
+  "        for i, item in enumerate(self):\n            items[i] = item\n            if i != 7:\n                index_map[item] = i")
+M('iset-apparent-index-uses-shifted', 'C11', 'setutils.py',
+  "        for d_start, d_stop in self.dead_indices:\n            if index < d_start:\n                break\n            apparent_index -= d_stop - d_start",
+  "        for d_start, d_stop in self.dead_indices:\n            if apparent_index < d_start:\n                break\n            apparent_index -= d_stop - d_start")
+M('iset-add-dead-merge-wrong-side', 'C11', 'setutils.py',
+  "        elif start <= d_stop <= stop:\n            dint[1] = stop", "        elif start <= d_stop <= stop:\n            dint[1] = stop + (1 if len(dints) > 5 else 0)")
+M('iset-union-order', 'C11', 'setutils.py',
+  "        return self.from_iterable(chain(self, *others))", "        return self.from_iterable(chain(self, *reversed(others)))")
+M('iset-symdiff-multi', 'C11', 'setutils.py',
+  "        ret = self.union(*others)\n        return ret.difference(self.intersection(*others))",
+  "        ret = self.union(*others)\n        return ret.difference(self.intersection(*others)) if len(self) != 3 else IndexedSet(sorted(ret.difference(self.intersection(*others))))")
+# (a mutant widening pop()'s last-item shortcut to the real last slot only differs for invalid indexes: dropped)
+M('iset-sort-keeps-dead', 'C11', 'setutils.py',
+  "        self.item_list[:] = sorted_list\n        for i, item in enumerate(self.item_list):\n            self.item_index_map[item] = i\n        del self.dead_indices[:]\n\n    def index",
+  "        self.item_list[:] = sorted_list\n        for i, item in enumerate(self.item_list):\n            self.item_index_map[item] = i\n        del self.dead_indices[1:]\n\n    def index")
